@@ -59,7 +59,17 @@ type ctxStore struct {
 // faults are injected read errors per CID (shared by the copies of ctxStore).
 type faults struct {
 	mu sync.Mutex
-	m  map[string]error
+	m  map[string]*faultRule
+
+	fired int
+}
+
+// faultRule fails the reads number skip+1 .. skip+times of one block
+// (times < 0: every read after the first skip ones).
+type faultRule struct {
+	err         error
+	skip, times int
+	seen        int
 }
 
 func (s ctxStore) fault(ctx context.Context, c cid.Cid) error {
@@ -71,21 +81,45 @@ func (s ctxStore) fault(ctx context.Context, c cid.Cid) error {
 	}
 	s.f.mu.Lock()
 	defer s.f.mu.Unlock()
-	return s.f.m[string(c.Hash())]
+	ru := s.f.m[string(c.Hash())]
+	if ru == nil {
+		return nil
+	}
+	ru.seen++
+	if ru.seen <= ru.skip || (ru.times >= 0 && ru.seen > ru.skip+ru.times) {
+		return nil
+	}
+	s.f.fired++
+	return ru.err
+}
+
+// FaultsFired reports how many reads have failed by injection since the last
+// ClearFaults.
+func (e *Env) FaultsFired() int {
+	e.faults.mu.Lock()
+	defer e.faults.mu.Unlock()
+	return e.faults.fired
+}
+
+// SetFaultN makes the reads number skip+1..skip+times of c fail with err
+// (times < 0: all reads after the first skip ones).
+func (e *Env) SetFaultN(c cid.Cid, err error, skip, times int) {
+	e.faults.mu.Lock()
+	e.faults.m[string(c.Hash())] = &faultRule{err: err, skip: skip, times: times}
+	e.faults.mu.Unlock()
 }
 
 // SetFault makes every read of c fail with err until ClearFaults (only for an
 // Env made by NewEnvCtx).
 func (e *Env) SetFault(c cid.Cid, err error) {
-	e.faults.mu.Lock()
-	e.faults.m[string(c.Hash())] = err
-	e.faults.mu.Unlock()
+	e.SetFaultN(c, err, 0, -1)
 }
 
 // ClearFaults removes all injected faults.
 func (e *Env) ClearFaults() {
 	e.faults.mu.Lock()
-	e.faults.m = map[string]error{}
+	e.faults.m = map[string]*faultRule{}
+	e.faults.fired = 0
 	e.faults.mu.Unlock()
 }
 
@@ -113,7 +147,7 @@ func (s ctxStore) Has(ctx context.Context, c cid.Cid) (bool, error) {
 // NewEnvCtx is NewEnv over a blockstore that refuses reads whose context is
 // already cancelled, and that can be told to fail reads of chosen blocks.
 func NewEnvCtx() *Env {
-	f := &faults{m: map[string]error{}}
+	f := &faults{m: map[string]*faultRule{}}
 	e := NewEnvOver(ctxStore{bstore.NewBlockstore(dssync.MutexWrap(ds.NewMapDatastore())), f})
 	e.faults = f
 	return e
@@ -614,4 +648,49 @@ func WrapInDir(env *Env, name string, fe *Entry) (string, error) {
 		return "", err
 	}
 	return dn.Cid().String(), nil
+}
+
+// NodeSpan is a node of a UnixFS file DAG with the content bytes [S,E) below it.
+type NodeSpan struct {
+	Cid  cid.Cid
+	S, E int64
+	Leaf bool
+}
+
+// FileSpans walks a UnixFS file DAG (content of a node = its own Data followed
+// by the content of its links, in order) with a plain dag-pb decode.
+func (e *Env) FileSpans(root cid.Cid) ([]NodeSpan, int64, error) {
+	var out []NodeSpan
+	var rec func(c cid.Cid, off int64) (int64, error)
+	rec = func(c cid.Cid, off int64) (int64, error) {
+		blk, err := e.BS.Get(context.Background(), c)
+		if err != nil {
+			return 0, err
+		}
+		if c.Prefix().Codec == cid.Raw {
+			n := int64(len(blk.RawData()))
+			out = append(out, NodeSpan{c, off, off + n, true})
+			return n, nil
+		}
+		nd, err := merkledag.DecodeProtobuf(blk.RawData())
+		if err != nil {
+			return 0, err
+		}
+		fsn, err := ft.FSNodeFromBytes(nd.Data())
+		if err != nil {
+			return 0, err
+		}
+		total := int64(len(fsn.Data()))
+		for _, l := range nd.Links() {
+			n, err := rec(l.Cid, off+total)
+			if err != nil {
+				return 0, err
+			}
+			total += n
+		}
+		out = append(out, NodeSpan{c, off, off + total, len(nd.Links()) == 0})
+		return total, nil
+	}
+	n, err := rec(root, 0)
+	return out, n, err
 }
